@@ -296,6 +296,15 @@ def median (s : List α) : Option α :=
 /-- pandas `quantile(q)` = `np.quantile(values without NaN, q)` -/
 def pquantile (s : List α) (q : α) : Except Err α := quantile s q
 
+/-- `sen.quantile(q)` for an array of levels: all of them, or the first error -/
+def quantilesAt (s : List α) : List α → Except Err (List α)
+  | [] => .ok []
+  | q :: qs =>
+    match pquantile s q, quantilesAt s qs with
+    | .ok v, .ok vs => .ok (v :: vs)
+    | .error e, _ => .error e
+    | _, .error e => .error e
+
 structure ViolinStats (α : Type) where
   q0 : α
   q25 : α
@@ -346,7 +355,7 @@ def violinGrid (eps : α) (data : List (Option α)) (npts : Nat) (err : List α)
     let m := npts / 2
     if err.length ≠ m then .error .drawsShape else do
     let s := sortL vals
-    let qv ← (linspace 0 1 m).mapM fun q => pquantile s q
+    let qv ← quantilesAt s (linspace 0 1 m)
     pure (some (violinSelect eps vals x0 x1,
                 sortL (linspace x0 x1 (npts - m) ++ List.zipWith (fun a b => a + b) qv err)))
   | _, _ => .ok none
